@@ -42,6 +42,9 @@ def step (st : St) (ws : List String) : St × List String :=
   | ["trunc", p, n] =>
     let q := (st.proofs.getD (nat! p) []).take (nat! n)
     ({ st with proofs := st.proofs.setIfInBounds (nat! p) q }, [s!"len {q.length}"])
+  | ["drop", p, k] =>
+    let q := (st.proofs.getD (nat! p) []).drop (nat! k)
+    ({ st with proofs := st.proofs.setIfInBounds (nat! p) q }, [s!"len {q.length}"])
   | "check" :: d :: i :: r =>
     let (root, rest) := resolve st r
     let p := st.proofs.getD (nat! (rest.headD "0")) []
